@@ -284,7 +284,9 @@ def write_source(spec, rows, tmpdir, via="stream", name="data"):
         path = os.path.join(tmpdir, name + ".ods")
         sheets = [[["other sheet %d" % i]] for i in range(1, sheet)] + [rows]
         # the way spreadsheet applications store a sheet: runs of equal rows and of equal cells are written once
-        enc_ods.write(path, sheets, {} if fmt.get("ods_plain") else {"row_runs": True, "col_runs": True})
+        # ... and now and then the cells carry comments
+        enc_ods.write(path, sheets, {} if fmt.get("ods_plain") else {"row_runs": True, "col_runs": True,
+                                                                      "annotations": len(rows) % 2 == 1})
         return path, name + ".ods"
     from vlib import enc_xlsx
 
